@@ -12,7 +12,7 @@ use crate::rec::*;
 use crate::spec;
 use crate::util::*;
 
-pub const ORACLES: &[(&str, Oracle)] = &[("skip", o_skip)];
+pub const ORACLES: &[(&str, Oracle)] = &[("skip", o_skip), ("skip_sparse", o_skip_sparse)];
 
 fn same_sem(a: &peppi::game::immutable::Game, b: &peppi::game::immutable::Game, what: &str) -> Result<(), (String, String)> {
 	start_eq(&a.start, &b.start, true).map_err(|m| (format!("{}-start", what), m))?;
@@ -48,6 +48,39 @@ fn empty_frames(g: &peppi::game::immutable::Game, rg: &crate::model::RefGame, wh
 	crate::model::compare_frames(&g.frames, &rg0, 0, true).map_err(|(k, m)| (format!("{}-{}", what, k), m))
 }
 
+/// input = a small finished replay whose payload table declares the filler event 0x7E (65,535 bytes) without
+/// containing one; p.n[0] = how many filler events a sparse stream inserts after Game Start (32,769 of them
+/// are 2 GiB: distances beyond 31 bits). The skip read of that stream must return the same start / end /
+/// metadata as the read of the small replay, and no frames.
+pub fn o_skip_sparse(input: &[u8], p: &P) -> Out {
+	let rg = domain(input, "C10");
+	let mut out = out_from(&rg);
+	out.nontrivial = true;
+	let r = catch(|| -> Result<u64, (String, String)> {
+		let e = |k: &str, m: String| (k.to_string(), m);
+		let small = read_slp(input, false, false).map_err(|f| e("full-read-failed", f.describe()))?;
+		let n = p.n[0].max(0) as u64;
+		let ins = 15 + 2 + 3 * rg.table.len() + 1 + rg.start_block.len();
+		let mut head = input[..ins].to_vec();
+		let raw_len = rg.raw_len_declared as u64 + n * 65_536;
+		if raw_len > u32::MAX as u64 {
+			crate::common::machinery("C10: sparse replay would not fit the 32-bit raw length");
+		}
+		head[11..15].copy_from_slice(&(raw_len as u32).to_be_bytes());
+		let mut block = vec![0x7Eu8];
+		block.extend((0..65_535usize).map(|i| (i % 253) as u8));
+		let rd = crate::env::SparseReader { head, block, n, tail: input[ins..].to_vec(), pos: 0, bytes_read: 0, seeks: 0 };
+		let sk = read_slp_from(rd, true, p.hash).map_err(|f| e(&format!("skip-read-failed:{}", f.key()), format!("skip_frames read of a replay with {} bytes between Game Start and Game End failed: {}", raw_len, f.describe())))?;
+		same_sem(&small, &sk, "sparse")?;
+		if sk.frames.len() != 0 {
+			return Err(e("sparse-frames", "the skip_frames game has frames".into()));
+		}
+		Ok(n)
+	});
+	finish_out(&mut out, "skip_sparse", p, r);
+	out
+}
+
 pub fn o_skip(input: &[u8], p: &P) -> Out {
 	let rg = domain(input, "C10");
 	let mut out = out_from(&rg);
@@ -67,6 +100,12 @@ pub fn o_skip(input: &[u8], p: &P) -> Out {
 		same_sem(&full, &skp, "slp-at-offset")?;
 		if skp.hash != full.hash {
 			return Err(e("skip-hash-at-offset", "hash differs when the reader starts at a non-zero position".into()));
+		}
+		if input.len() < 3000 {
+			// the debug option (dump every event to a directory) next to skip_frames: still no frames
+			let skd = read_slp_debug(input, true, p.hash).map_err(|f| e(&format!("skip-read-failed-with-debug:{}", f.key()), format!("skip_frames read with the debug option set failed: {}", f.describe())))?;
+			same_sem(&full, &skd, "slp-with-debug-option")?;
+			empty_frames(&skd, &rg, "slp-with-debug-option")?;
 		}
 		if p.n[0] == 9 {
 			// a replay of a version newer than the writers support: nothing can be written
@@ -224,6 +263,31 @@ pub fn run() {
 				aligned.push((d.assemble(), format!("v{}.{} with a Game End of {} bytes", ver.0, ver.1, size), hash));
 			}
 		}
+	}
+	// distances beyond 31 and close to 32 bits: a sparse stream (never held in memory) with 32,767 / 32,768 /
+	// 32,769 / 65,000 filler events of 65,536 bytes after Game Start; the seek path in both tiers, the hashed
+	// copy path (reads the 2-4 GiB through the hasher) in the thorough tier
+	{
+		let mut sjobs = vec![];
+		for v in [(2u8, 0u8), (3, 16)] {
+			let a = base_replay(v, vec![pc(0, false)], 0);
+			let mut d = record(&a).doc;
+			d.table.push((0x7E, 65_535));
+			let bytes = Arc::new(d.assemble());
+			for n in [1i64, 32_767, 32_768, 32_769, 65_000] {
+				for hash in [false, true] {
+					if hash && (cx.quick() || n > 32_769) {
+						continue;
+					}
+					sjobs.push((bytes.clone(), v, n, hash));
+				}
+			}
+		}
+		par_each(sjobs.into_iter(), |(bytes, v, n, hash), local| {
+			let mut p = P { hash, class: "sparse", ..Default::default() };
+			p.n[0] = n;
+			eval_case("skip_sparse", o_skip_sparse, &bytes, &p, || format!("v{}.{} with {} filler events of 64 KiB after Game Start", v.0, v.1, n), local);
+		});
 	}
 	cx.note("aligned_span_cases", json!(aligned.len()));
 	par_each(aligned.into_iter(), |(bytes, label, hash), local| {
